@@ -40,7 +40,7 @@ RULE = ("per-run seed -> knobs + a history of 1-4 writer transactions (adds, gro
 ASSUMPTIONS = ["crash model = kill -9 of the writing process: kernel-visible state survives in full, user-space buffers survive as a prefix no shorter than the last explicit flush; power-loss (no fsync) reordering is outside the property's crash model and not injected",
                "recovery runs in a fresh simulated process that shares nothing with the dead one but the file system",
                "TOC temp files (_MAIN_n.toc.<time>) and the MAIN.tmp directory are not 'segment files': their survival is recorded, not judged"]
-TIERS = {"quick": {"runs": 96, "time_budget": 110, "audit_every": 30, "max_states": 40},
+TIERS = {"quick": {"runs": 144, "time_budget": 110, "audit_every": 30, "max_states": 40},
          "thorough": {"runs": 4000, "time_budget": 1700, "audit_every": 100, "max_states": 600}}
 
 SEGFILE = re.compile(r"^MAIN_([0-9a-z]+)\.")
@@ -50,12 +50,17 @@ TOCTEMP = re.compile(r"^_MAIN_([0-9]+)\.toc\.")
 
 def generate(seed, tier):
     r = random.Random("%s/mode" % seed)
+    schema_run = r.random() < 0.3
+    force = {"long_text_p": 0.0}
+    sr = random.Random("%s/schema_run" % seed)
+    if schema_run and sr.random() < 0.5:
+        force["compound"] = False     # loose segment files: every field's column is a file of its own
     rec = _hist.generate_hist(
         ID, seed,
         gen_kwargs={"ntx": (1, 4), "maxops": 5, "p_iofault": 0.0, "p_raise": 0.06, "p_cancel": 0.12,
-                    "p_restart": 0.25, "schema_changes": r.random() < 0.3, "p_schema": (0.2, 0.3),
+                    "p_restart": 0.25, "schema_changes": schema_run, "p_schema": (0.2, 0.3),
                     "p_delete": r.choice((0.15, 0.3))},
-        cfg_kwargs={"force": {"long_text_p": 0.0}})
+        cfg_kwargs={"force": force, "want": (["so", "n"] if schema_run else None)})
     if r.random() < 0.15:
         # a prefix of tiny commits brings the generation counter to 7..10, so that the transactions
         # under test cross the 9 -> 10 boundary (file names, sort orders and parsers of "_MAIN_<n>.toc")
